@@ -270,6 +270,43 @@ def programs(tier, seed):
     q["entry"] = main
     q["name"] = "runtime-argument-chain"
     ps.append(q)
+    # call-order hints that run against each other or against real dependencies (the graph must stay acyclic)
+    for shape in ("hints-opposite-orders", "hints-vs-solid-edge", "hint-vs-dashed-edge"):
+        q = gen.new_program("g%d" % k)
+        k += 1
+        m = gen.add_module(q, "gm")
+        a = gen.add_fn(q, m, "na", data_path="/h/a", const=1)
+        b = gen.add_fn(q, m, "nb", data_path="/h/b", const=2)
+        ha = gen.add_fn(q, m, "helper_a", params=[("v", None)], const=3)
+        q["fns"][ha]["stmts"] = [gen.s_call(a, [])]
+        hb = gen.add_fn(q, m, "helper_b", params=[("v", None)], const=4)
+        q["fns"][hb]["stmts"] = [gen.s_call(b, [])]
+        main = gen.add_fn(q, m, "gmain", const=9)
+        if shape == "hints-opposite-orders":
+            f1 = gen.add_fn(q, m, "first", const=5)
+            q["fns"][f1]["stmts"] = [gen.s_call(a, []), gen.s_call(hb, [gen.local(0)])]
+            f2 = gen.add_fn(q, m, "second", const=6)
+            q["fns"][f2]["stmts"] = [gen.s_call(b, []), gen.s_call(ha, [gen.local(0)])]
+            q["fns"][main]["stmts"] = [gen.s_call(f1, []), gen.s_call(f2, [])]
+        elif shape == "hints-vs-solid-edge":
+            c = gen.add_fn(q, m, "nc", data_path="/h/c", const=7)
+            q["fns"][c]["stmts"] = [gen.s_call(b, [])]
+            f1 = gen.add_fn(q, m, "first", const=5)
+            q["fns"][f1]["stmts"] = [gen.s_call(a, []), gen.s_call(hb, [gen.local(0)])]
+            f2 = gen.add_fn(q, m, "second", const=6)
+            q["fns"][f2]["stmts"] = [gen.s_call(c, []), gen.s_call(ha, [gen.local(0)])]
+            q["fns"][main]["stmts"] = [gen.s_call(f1, []), gen.s_call(f2, [])]
+        else:
+            q["fns"][a]["stmts"] = [gen.s_load("/h/b")]
+            q["fns"][main]["stmts"] = [gen.s_call(b, []), gen.s_call(a, []), gen.s_call(hb, [gen.local(1)])]
+        # the definitions must precede their uses in the module
+        order = q["order"][m]
+        q["order"][m] = [x for x in order if x[1] in (a, b)] + [x for x in order if x[1] not in (a, b, main)] + [("fn", main)]
+        if shape == "hint-vs-dashed-edge":
+            q["order"][m] = [("fn", b), ("fn", a)] + [x for x in order if x[1] not in (a, b, main)] + [("fn", main)]
+        q["entry"] = main
+        q["name"] = shape
+        ps.append(q)
     # loads: by a kept function (own body / through helper), of an internal and an external path
     from checks import c09
 
